@@ -475,6 +475,27 @@ func recordC04(env *Env) {
 		}
 		jobs[i] = ev{Fmt: fmts[i%4], Sizes: sizes, Workers: 2 + env.rng.Intn(3), Push: env.rng.Perm(n)}
 	}
+	// a long stream in which one batch reaches the writer after more than a hundred of its successors (one very slow
+	// formatting worker): the writers hold the batches that are early for as long as it takes
+	for k := 0; k < 8; k++ {
+		delay := []int{101, 102, 120, 150, 250, 130, 200, 105}[k]
+		n := delay + 5 + env.rng.Intn(40)
+		late := env.rng.Intn(n - delay - 1)
+		sizes := make([]int, n)
+		for j := range sizes {
+			sizes[j] = 1 + env.rng.Intn(2)
+		}
+		push := []int{}
+		for b := 0; b < n; b++ {
+			if b != late {
+				push = append(push, b)
+			}
+			if b == late+delay {
+				push = append(push, late)
+			}
+		}
+		jobs = append(jobs, ev{Fmt: fmts[k%4], Sizes: sizes, Workers: 2 + env.rng.Intn(3), Push: push})
+	}
 	parallel(len(jobs), 0, func(i int) {
 		j := &jobs[i]
 		snk := newSink()
